@@ -1,5 +1,5 @@
 (** C04 — sub-command routing runs exactly the addressed command with its own bindings. *)
-From MowCli Require Import Base Values Flow Cmd FlowProofs TreeProofs.
+From MowCli Require Import Base Values Flow Cmd FlowProofs TreeProofs TraceProofs.
 
 Section C04.
   Variable parse_float : str -> option str.
@@ -29,7 +29,26 @@ Section C04.
       (match more with [] => True | a :: _ => names_sub subs a = true end) ->
       opts_and_args subs (w ++ more) = length w.
   Proof. exact opts_and_args_own. Qed.
+
+  (** For EVERY tree and EVERY argument vector (nothing assumed about the invocation): at most one
+      Action runs, and callbacks run only inside the one step chain of the addressed command. *)
+  Theorem C04_at_most_one_action :
+    forall a argv, length (filter is_action (r_trace (run parse_float getenv a argv))) <= 1.
+  Proof. exact (run_at_most_one_action parse_float getenv). Qed.
+
+  (** ... and the Action that runs is the one of the last command entered: the trace is the trace of
+      the chain over the levels [ls] with command paths [ps], and the Action event carries the last
+      path of [ps]. *)
+  Theorem C04_action_is_the_addressed_one :
+    forall a argv p,
+      In (HAction, p) (r_trace (run parse_float getenv a argv)) ->
+      exists ls ps act, flowed (run parse_float getenv a argv) /\
+        r_trace (run parse_float getenv a argv) = trace_of ps (fst (run_flow ls act)) /\
+        length ps = length ls /\ p = last ps [].
+  Proof. exact (run_action_is_the_addressed_one parse_float getenv). Qed.
 End C04.
+Print Assumptions C04_at_most_one_action.
+Print Assumptions C04_action_is_the_addressed_one.
 Print Assumptions C04_route.
 Print Assumptions C04_split.
 
